@@ -51,7 +51,8 @@ def _same_cell_call(g, ctx, sc):
 SWEEP_KINDS = ['samecell-cold', 'samecell-other', 'repeat-recent', 'identical-cold', 'sameface-cold',
                'far-cold', 'samecell-hot', 'edge-cold', 'samecell-cold@instr', 'repeat-recent@instr',
                'coarse-cold', 'coarse-other', 'hier-other', 'capacity-256', 'capacity-1024',
-               # thorough tier only (the quick tier runs the first 15 kinds):
+               'hier-other@instr', 'coarse-cold@instr',
+               # thorough tier only (the quick tier runs the first 17 kinds):
                'capacity-4096', 'capacity-65536', 'capacity-16384', 'capacity-512', 'capacity-2048', 'capacity-1000']
 
 
@@ -91,8 +92,16 @@ def gen_sweep(ctx, rng, kind):
         mixk = 'coarse' if kind.startswith('coarse') else 'hier'
         fa = wchoice(rng, {'cell_to_children': 4, 'uncompact': 3, 'get_res0_cells': 1, 'compact': 1})
         fb = wchoice(rng, {'cell_to_children': 4, 'uncompact': 3, 'get_res0_cells': 1, 'compact': 1, 'cell_to_parent': 1})
-        A = _usable_call(g, ctx, mixk, g.base()) if mixk == 'hier' else g.coarse_call(fa)
-        B = _usable_call(g, ctx, mixk, g.base()) if mixk == 'hier' else g.coarse_call(fb)
+        def small(mk_call):
+            # instruction-level sweeps need calls of modest size (every bytecode is an event)
+            c = mk_call()
+            for _ in range(10):
+                if gran != 'instr' or (ctx.usable(c) and ctx.oracle(c)['steps'] <= 2500):
+                    break
+                c = mk_call()
+            return c
+        A = small(lambda: _usable_call(g, ctx, mixk, g.base()) if mixk == 'hier' else g.coarse_call(fa))
+        B = small(lambda: _usable_call(g, ctx, mixk, g.base()) if mixk == 'hier' else g.coarse_call(fb))
         if kind.endswith('other'):
             warm = [g.coarse_call(fa) if mixk == 'coarse' else _usable_call(g, ctx, mixk, g.base())]
     elif kind in ('samecell-cold', 'samecell-other', 'samecell-hot', 'edge-cold'):
